@@ -127,6 +127,66 @@ def run_wrapper(name, cfg, seed):
     return r
 
 
+def run_ensemble(kind, cfg, seed):
+    """LatticeSolver / BuckshotSolver through the class API, advanced step by step (Step loop, then Solve(step=True)
+    or Solve again): a Boundary after EVERY ensemble step, so that the reported (best, energy) is judged while the
+    members are still improving, not only at the end of a one-shot wrapper call"""
+    import numpy as np
+    import mystic.solvers as ms
+    from harness.objrec import as_given
+    r = ObjRun(cfg, seed=seed)
+    if r.red:
+        return None
+    dim = cfg["dim"]
+    bx = BOXES[cfg["box"]](dim) if cfg["box"] not in ("none",) else BOXES["wide"](dim)
+    lo = [(-3.0 if (v is None or v == -float("inf")) else float(v)) for v in bx[0]]
+    hi = [(3.0 if (w is None or w == float("inf")) else float(w)) for w in bx[1]]
+    r.box = (lo, hi)
+    if kind == "lattice":
+        s = ms.LatticeSolver(dim, nbins=[2] + [1] * (dim - 1) if dim > 1 else [3])
+    else:
+        s = ms.BuckshotSolver(dim, npts=3)
+    nested = cfg.get("nested", "NM")
+    if nested == "DE":
+        s.SetNestedSolver(ms.DifferentialEvolutionSolver, NP=cfg.get("npop", 4))
+    elif nested == "DE2":
+        s.SetNestedSolver(ms.DifferentialEvolutionSolver2, NP=cfg.get("npop", 4))
+    elif nested == "PW":
+        s.SetNestedSolver(ms.PowellDirectionalSolver)
+    else:
+        s.SetNestedSolver(ms.NelderMeadSimplexSolver)
+    s.SetStrictRanges(lo, hi)
+    if r.cons_pristine is not None:
+        r.cons = r.cons_pristine
+        s.SetConstraints(as_given(r.cons_pristine, cfg.get("inplace", False)))
+    if r.pen_pristine is not None:
+        r.pen = r.pen_pristine
+        s.SetPenalty(r.pen_pristine)
+    s.SetEvaluationLimits(cfg.get("maxgen", 8), None)
+    import mystic.termination as mt
+    s.SetTermination(mt.VTR(1e-12))
+    r.solver = s
+    r.events.append({"ev": "New", "kind": kind + "/" + nested, "rfs": True, "cfs": r.cons is not None, "randomclip": False,
+                     "members": False, "cfg": cfg, "seed": seed})
+    s.SetObjective(r.cost)
+    for k in range(cfg.get("steps", 5)):
+        msg = s.Step()
+        r.boundary(members=False, best=np.atleast_1d(s.bestSolution), beste=float(np.asarray(s.bestEnergy).ravel()[0]),
+                   note="ensemble-step%d" % k)
+        r.events[-1]["init"] = None
+        if msg:
+            break
+    if cfg.get("finish") == "solve-step":
+        s.Solve(step=True)
+    elif cfg.get("finish") == "solve":
+        s.Solve()
+    if cfg.get("finish") in ("solve", "solve-step"):
+        r.boundary(members=False, best=np.atleast_1d(s.bestSolution), beste=float(np.asarray(s.bestEnergy).ravel()[0]),
+                   note="ensemble-" + cfg["finish"])
+        r.events[-1]["init"] = None
+    return r
+
+
 # ------------------------------------------------------------------------------------------------ main
 def run(prop, a):
     assert_repo()
@@ -187,6 +247,32 @@ def run(prop, a):
             continue
         traces.append(strip(r.finish_ids()))
         meta.append((name, cfg, r))
+    # ensembles through the class API, stepped (the statement names "an ensemble of them"; at every iteration boundary)
+    nens = 0 if light else (600 if thorough else 90)
+    for i in range(nens):
+        cfg = rand_cfg(rng)
+        cfg["cons_at"] = cfg["box_at"] = cfg["pen_at"] = 0
+        cfg["tight"] = cfg["clip"] = None
+        if cfg["cost"] == "vector":
+            cfg["cost"] = "sphere"
+        if cfg["box"] in ("degenerate", "onesided", "infinite"):
+            cfg["box"] = "unit"
+        cfg["dim"] = max(cfg["dim"], 2) if i % 3 else cfg["dim"]
+        cfg["nested"] = ["DE", "NM", "DE2", "PW", "DE", "NM"][i % 6]
+        cfg["maxgen"] = 6
+        cfg["steps"] = rng.choice([3, 5, 8])
+        cfg["finish"] = rng.choice(["none", "solve-step", "solve"])
+        ek = ["lattice", "buckshot"][(i // 6) % 2]
+        try:
+            r = quiet(run_ensemble, ek, cfg, a.seed * 15485863 + i)
+        except Exception as ex:
+            refused["%s:%s:%s" % (ek, type(ex).__name__, str(ex)[:40])] += 1
+            continue
+        if r is None:
+            continue
+        traces.append(strip(r.finish_ids()))
+        meta.append((ek + "/" + cfg["nested"], cfg, r))
+    ck.extra["stepped_ensemble_runs"] = nens
     ck.extra["record_wall_s"] = round(time.time() - t0, 1)
     ck.extra["refused_at_setup"] = dict(refused)
 
